@@ -1012,6 +1012,7 @@ def one_case(ctx: Ctx, oracle: L.Oracle, batch: Optional[Batch], v11: bool, labe
                     # the first member at which the two verdicts part is an instance of a listed finding
                     # (C02-F6/F7/F11 make a date/duration member accept or refuse the text)
                     ctx.known_hit(fid, _pub(case), {'kind': 'union-member', 'what': bad})
+                    ctx.count('known-through-union-member:' + fid)
                     case['_known'] = fid
                 elif L.has_py_ws(text):
                     case['_pyws_pending'] = {'kind': 'value', 'what': bad}
@@ -1121,9 +1122,21 @@ def _f4_elementpath_strip(case: dict, impl: dict) -> bool:
     if names & {'base64Binary'}:
         ep_ws = L.PY_ONLY_WS.replace('\xa0', '')
         candidates.append([''.join(c for c in i if c not in ep_ws) for i in raw_items])
-    for items in candidates:
+    # list over a union with a string member next to such a built-in: only the items that the implementation decoded
+    # to a date/time, duration or binary VALUE went through elementpath; the other items (strings) keep the character
+    got_l = impl['val'].get('l') if isinstance(impl.get('val'), dict) else None
+    nonempty_idx = [k for k, r in enumerate(raw_items) if r]
+    selective: list = []
+    if candidates and _contains_list(d) and _contains_union(d) and isinstance(got_l, list) and len(got_l) == len(nonempty_idx):
+        through_ep = {k: isinstance(g, dict) and bool(set(g) & {'dt', 'dur', 'x', 'y'}) for k, g in zip(nonempty_idx, got_l)}
+        if any(through_ep.values()) and not all(through_ep.values()):
+            for items in candidates:
+                sel = [c if through_ep.get(k) else r for k, (c, r) in enumerate(zip(items, raw_items))]
+                if not any(L.has_py_ws(c) for k, c in enumerate(sel) if through_ep.get(k)) and sel != raw_items:
+                    selective.append(sel)
+    for items in candidates + selective:
         cleaned = ' '.join(i for i in items if i)
-        if L.has_py_ws(cleaned):
+        if L.has_py_ws(cleaned) and not any(items is s for s in selective):
             continue
         again = impl_eval(case['_t'], cleaned, case['_oracle'])
         if again.get('val') == impl.get('val') and again.get('errs') == impl.get('errs'):
